@@ -150,7 +150,7 @@ func derivations(thorough bool, f func(name string, ss []string)) {
 				lists[h] = leaf
 				in := fill(t, lists, defW)
 				for _, pre := range [][]string{{"a", "<<F", "|"}, {"a", "<<F", "&&"}, {"a", "<<F", ";"}, {"{", "a", ";", "}", "<<F", "|"},
-					{"a", "<<F", "|", "a", "$(b\nc)", "|"}, {"a", "<<F", "&&", "a", "'q\né'", "&&"}, {"a", "<<F", "$(b\nc)", "|"}} {
+					{"a", "<<F", "|", "a", "$(b\nc)", "|"}, {"a", "<<F", "&&", "a", "'q\né'", "&&"}, {"a", "<<F", "$(b\nc)", "|"}, {"a", "<<E", "|"}, {"a", "<<'E'", "|"}, {"a", "<<'E'", "&&"}} {
 					f("DH", append(append([]string{}, pre...), in...))
 				}
 			}
